@@ -4,6 +4,7 @@ import (
 	"fmt"
 	"go/token"
 	"go/types"
+	"strings"
 
 	"golang.org/x/tools/go/ssa"
 
@@ -94,6 +95,11 @@ func (b *bounds) discharge(c *core.Ctx, site core.IndexSite) (bool, string) {
 			why = append(why, how)
 		}
 		if ok, how := b.valueSet(in, x, idx); ok {
+			return true, how
+		} else if how != "" {
+			why = append(why, how)
+		}
+		if ok, how := b.searchResult(in, x, idx); ok {
 			return true, how
 		} else if how != "" {
 			why = append(why, how)
@@ -337,6 +343,14 @@ func (b *bounds) valueSet(in ssa.Instruction, x, idx ssa.Value) (bool, string) {
 		return false, ""
 	}
 	li := core.LenInterval(x, in.Block())
+	// an array (local or package-level table): its length is its type's
+	t := x.Type()
+	if pt, isP := t.Underlying().(*types.Pointer); isP {
+		t = pt.Elem()
+	}
+	if arr, isArr := t.Underlying().(*types.Array); isArr {
+		li = core.Interval{Lo: arr.Len(), Hi: arr.Len()}
+	}
 	if li.Lo <= 0 {
 		return false, ""
 	}
@@ -385,4 +399,38 @@ func (b *bounds) valueSet(in ssa.Instruction, x, idx ssa.Value) (bool, string) {
 func sameNamed(t types.Type, named *types.Named) bool {
 	n, ok := t.(*types.Named)
 	return ok && n.Obj() == named.Obj()
+}
+
+// (f) search-result idiom: i := slices.Index / slices.IndexFunc (xs, ..); if i >= 0 { xs[i] }: the standard
+// library returns -1 or a valid index of the slice it was given; xs must be the same value or another
+// load of the same field with nothing in between that can shrink it.
+func (b *bounds) searchResult(in ssa.Instruction, x, idx ssa.Value) (bool, string) {
+	cl, ok := idx.(*ssa.Call)
+	if !ok {
+		return false, ""
+	}
+	f := core.Callee(cl)
+	if f == nil || f.Pkg() == nil || f.Pkg().Path() != "slices" || !(strings.HasPrefix(f.Name(), "Index") || f.Name() == "BinarySearch") || len(cl.Call.Args) == 0 {
+		return false, ""
+	}
+	if f.Name() == "BinarySearch" {
+		return false, "BinarySearch may return len(xs)"
+	}
+	iv := core.EvalInt(idx, in.Block())
+	nonNeg := iv.Lo >= 0
+	if !nonNeg {
+		return false, "search result not known to be >= 0 here"
+	}
+	arg := cl.Call.Args[0]
+	if arg == x {
+		return true, "index is the non-negative result of " + f.Pkg().Path() + "." + f.Name() + " on the same slice"
+	}
+	if sameFieldLoad(arg, x) {
+		_, fld, _ := core.LoadedField(x)
+		shr := b.shrinkers(fld)
+		if ok2, _ := noShrinkBetween(b.p, cl, in, fld, shr); ok2 {
+			return true, "index is the non-negative result of " + f.Pkg().Path() + "." + f.Name() + " on the same field, which nothing in between can shrink"
+		}
+	}
+	return false, "search was made on another slice"
 }
